@@ -329,7 +329,7 @@ def _real_cases():
 
 
 def _sp(name, runner, fn, rule, bound, batch=20):
-    return Space(name, "mc.props.c01:" + runner, fn, oracle="inline", rule=rule, bound=bound, batch=batch, watchdog=120,
+    return Space(name, "mc.props.c01:" + runner, fn, oracle="inline", rule=rule, bound=bound, batch=batch, watchdog=45,
                  nontrivial=lambda cid, p, exp: True)
 
 
